@@ -27,6 +27,9 @@ impl BatchAccumulator {
 
     pub fn append(&mut self, batch_size: IggyByteSize, items: &[Arc<RetainedMessage>]) {
         assert!(!items.is_empty());
+        if self.messages.is_empty() {
+            self.base_offset = items.first().unwrap().offset;
+        }
         self.current_size += batch_size;
         self.current_offset = items.last().unwrap().offset;
         self.current_timestamp = items.last().unwrap().timestamp;
